@@ -1,5 +1,5 @@
 SPECIFICATION TSpec
 CONSTANTS
-  NT = 10
+  NT = 40
 CONSTRAINT Report
 CHECK_DEADLOCK FALSE
